@@ -7,6 +7,7 @@ package main
 import (
 	"encoding/hex"
 	"encoding/json"
+	"errors"
 	"fmt"
 	"runtime"
 	"strings"
@@ -368,6 +369,15 @@ func fieldOrder(thorough bool, res *ev.Result) (lists, fieldsChecked int64) {
 				}
 			}
 		}
+		// fields that FAIL (past the window) and 16-bit fields that name a byte order: neither may change what the fields
+		// listed after (or before) them give
+		add("u16@beyond", modbus.Field{Address: start + uint16(n), Type: modbus.FieldTypeUint16})
+		add("u32@last", modbus.Field{Address: start + uint16(n-1), Type: modbus.FieldTypeUint32})
+		add("u16/LE@beyond", modbus.Field{Address: start + uint16(n), Type: modbus.FieldTypeUint16, ByteOrder: packet.LittleEndian})
+		for _, o := range []packet.ByteOrder{packet.LittleEndian, packet.BigEndianLowWordFirst, packet.LittleEndianLowWordFirst} {
+			add(fmt.Sprintf("u16/%d@0", o), modbus.Field{Address: start, Type: modbus.FieldTypeUint16, ByteOrder: o})
+			add(fmt.Sprintf("i16/%d@1", o), modbus.Field{Address: start + 1, Type: modbus.FieldTypeInt16, ByteOrder: o})
+		}
 		mkResp := func() *packet.ReadHoldingRegistersResponseTCP {
 			p := append([]byte(nil), payload...)
 			return &packet.ReadHoldingRegistersResponseTCP{ReadHoldingRegistersResponse: packet.ReadHoldingRegistersResponse{UnitID: 1, RegisterByteLen: uint8(len(p)), Data: p}}
@@ -377,7 +387,7 @@ func fieldOrder(thorough bool, res *ev.Result) (lists, fieldsChecked int64) {
 		for _, a := range alpha {
 			br := modbus.BuilderRequest{ServerAddress: "s", UnitID: 1, StartAddress: start, Fields: modbus.Fields{a.f}}
 			vs, err := br.ExtractFields(mkResp(), true)
-			if err != nil || len(vs) != 1 {
+			if (err != nil && !errors.Is(err, modbus.ErrorFieldExtractHadError)) || len(vs) != 1 {
 				solo[a.name] = fmt.Sprintf("ERR %v", err)
 				continue
 			}
@@ -394,7 +404,7 @@ func fieldOrder(thorough bool, res *ev.Result) (lists, fieldsChecked int64) {
 			br := modbus.BuilderRequest{ServerAddress: "s", UnitID: 1, StartAddress: start, Fields: fs}
 			resp := mkResp()
 			vs, err := br.ExtractFields(resp, true)
-			if err != nil || len(vs) != len(list) {
+			if (err != nil && !errors.Is(err, modbus.ErrorFieldExtractHadError)) || len(vs) != len(list) {
 				return
 			}
 			for i, v := range vs {
@@ -487,6 +497,9 @@ func run(tier string, shard, nsh int, res *ev.Result) {
 		tot.ops += lc.ops
 		mu.Unlock()
 	})
+	if shard == 0 {
+		tot.ops += defaultSwitchHistories(res)
+	}
 	nl, nf := fieldOrder(thorough, res)
 	res.Add("field_lists", nl)
 	res.Add("field_values_compared", nf)
@@ -508,6 +521,10 @@ func run(tier string, shard, nsh int, res *ev.Result) {
 func replay(check string, raw json.RawMessage, res *ev.Result) {
 	var c Case
 	json.Unmarshal(raw, &c)
+	if len(c.History) > 0 && c.History[0] == "default-switch-histories" {
+		defaultSwitchHistories(res)
+		return
+	}
 	if len(c.History) > 0 && c.History[0] == "string-order-probe" {
 		stringOrderProbe(res) // must be the first thing in the process, as it is here
 		return
@@ -586,4 +603,81 @@ func stringOrderProbe(res *ev.Result) {
 			}
 		}
 	}
+}
+
+// defaultSwitchHistories: a view whose default order the CALLER has changed (and not changed back). For every setting S,
+// every operation B and every read C: C after [S, B] must return what C returns after [S] alone - B (a read, a field
+// extraction that names its own order, a failing extraction) must leave the caller's setting as it found it.
+func defaultSwitchHistories(res *ev.Result) (n int64) {
+	payload := make([]byte, 12)
+	for i := range payload {
+		payload[i] = byte(i*29 + 0x41)
+	}
+	const start = 300
+	type opf struct {
+		name string
+		f    func(r *packet.Registers) string
+	}
+	fld := func(name string, f modbus.Field) opf {
+		f.Name, f.ServerAddress, f.UnitID = name, "s", 1
+		return opf{"ExtractFrom(" + name + ")", func(r *packet.Registers) string { return r2(f.ExtractFrom(r)) }}
+	}
+	bs := []opf{
+		fld("u16/LE@0", modbus.Field{Address: start, Type: modbus.FieldTypeUint16, ByteOrder: packet.LittleEndian}),
+		fld("i16/BE-low@1", modbus.Field{Address: start + 1, Type: modbus.FieldTypeInt16, ByteOrder: packet.BigEndianLowWordFirst}),
+		fld("u16/LE@beyond", modbus.Field{Address: start + 6, Type: modbus.FieldTypeUint16, ByteOrder: packet.LittleEndian}),
+		fld("u16@beyond", modbus.Field{Address: start + 6, Type: modbus.FieldTypeUint16}),
+		fld("u32/LE-low@0", modbus.Field{Address: start, Type: modbus.FieldTypeUint32, ByteOrder: packet.LittleEndianLowWordFirst}),
+		fld("u32@0", modbus.Field{Address: start, Type: modbus.FieldTypeUint32}),
+		fld("str5/LE@0", modbus.Field{Address: start, Type: modbus.FieldTypeString, Length: 5, ByteOrder: packet.LittleEndian}),
+		fld("bit@0", modbus.Field{Address: start, Type: modbus.FieldTypeBit, Bit: 3}),
+		fld("u64@last", modbus.Field{Address: start + 5, Type: modbus.FieldTypeUint64}),
+		{"Uint32WithByteOrder(LE)@0", func(r *packet.Registers) string { return r2(r.Uint32WithByteOrder(start, packet.LittleEndian)) }},
+		{"Uint16@beyond", func(r *packet.Registers) string { return r2(r.Uint16(start + 6)) }},
+		{"StringWithByteOrder(BE,3)@0", func(r *packet.Registers) string { return r2(r.StringWithByteOrder(start, 3, packet.BigEndian)) }},
+	}
+	cs := []opf{
+		{"Uint16@0", func(r *packet.Registers) string { return r2(r.Uint16(start)) }},
+		{"Int16@5", func(r *packet.Registers) string { return r2(r.Int16(start + 5)) }},
+		{"Uint32@0", func(r *packet.Registers) string { return r2(r.Uint32(start)) }},
+		{"Float32@2", func(r *packet.Registers) string { return r2(r.Float32(start + 2)) }},
+		{"Uint64@1", func(r *packet.Registers) string { return r2(r.Uint64(start + 1)) }},
+		{"String(4)@0", func(r *packet.Registers) string { return r2(r.String(start, 4)) }},
+		{"Uint32WithByteOrder(0)@0", func(r *packet.Registers) string { return r2(r.Uint32WithByteOrder(start, 0)) }},
+		{"Uint8hi@0", func(r *packet.Registers) string { return r2(r.Uint8(start, true)) }},
+	}
+	safe := func(f func(r *packet.Registers) string, r *packet.Registers) (out string) {
+		defer func() {
+			if rec := recover(); rec != nil {
+				out = fmt.Sprintf("PANIC %v", rec)
+			}
+		}()
+		return f(r)
+	}
+	for _, set := range []packet.ByteOrder{0, packet.LittleEndian, packet.BigEndianLowWordFirst, packet.LittleEndianLowWordFirst, packet.LittleEndianHighWordFirst} {
+		mk := func() *packet.Registers {
+			r, err := packet.NewRegisters(append([]byte(nil), payload...), start)
+			if err != nil {
+				panic(err)
+			}
+			if set != 0 {
+				r.WithByteOrder(set)
+			}
+			return r
+		}
+		for _, b := range bs {
+			for _, c := range cs {
+				n += 3
+				want := safe(c.f, mk())
+				r := mk()
+				safe(b.f, r)
+				if got := safe(c.f, r); got != want {
+					res.Violate(ev.Violation{Check: "purity", Kind: "result-depends-on-history", Attrs: map[string]any{"victim": opClass(c.name), "after": opClass(b.name), "caller_default": int(set)},
+						Msg:  fmt.Sprintf("view with the caller's default order %d: %s after %s returns %s, without it %s", set, c.name, b.name, got, want),
+						Case: Case{Payload: hex.EncodeToString(payload), Start: start, History: []string{"default-switch-histories", fmt.Sprint(set), b.name, c.name}}})
+				}
+			}
+		}
+	}
+	return n
 }
